@@ -26,6 +26,7 @@ import Driver.Ieee
 import Driver.Dwvw
 import Driver.Small1
 import Driver.Abs
+import Driver.AbsWrite
 open Sf
 
 def lawOf (s : String) : Option G711.Law :=
@@ -97,4 +98,5 @@ def main (args : List String) : IO UInt32 := do
   | "dwvw" :: rest => Driver.Dwvw.cmd rest
   | "small1" :: rest => Driver.Small1.cmd rest
   | "abs" :: rest => AbsDriver.cmd rest
+  | "abs-write" :: rest => AbsWriteDriver.cmd rest
   | _ => IO.eprintln "usage: sfmodel <g711|...> ..."; return 2
